@@ -12,7 +12,7 @@ CONSTANTS MaxDepth, SecondDepth,
 
 L(k, a) == N(k, a, <<>>)
 Leafs == CASE Family = "scope" -> {L("sbind", "x"), L("abind", "x"), L("read", "x"), L("fail", ""), L("gbind", "g"), L("gread", "g")}
-           [] Family = "kw"    -> {L("sbind2", "x"), L("sbind", "x"), L("nbind", "x"), L("read", "x"), L("read", "y"), L("fail", "")}
+           [] Family = "kw"    -> {L("sbind2", "x"), L("abind", "x"), L("nbind", "x"), L("read", "x"), L("read", "y"), L("fail", "")}
            [] Family = "vars"  -> {L("vbind", "v"), L("vset", "v"), L("vread", "v"), L("fail", "")}
            [] Family = "ref"   -> {L("refuse", "r"), L("mark", ""), L("fail", "")}
 Unary == CASE Family = "scope" -> {<<"spec", "x">>, <<"fill", "">>, <<"match", "">>}
